@@ -620,6 +620,16 @@ impl InsertionCtx<'_> {
     const MARKED_INSERT_BEFORE: u16 = 0x0400;
     const CURRENT_INSERT_COUNT: u16 = 0x03E0;
     const MARKED_INSERT_COUNT: u16 = 0x001F;
+
+    /// `count` if the insertion glyph list holds `count` glyphs from `start`, else 0.
+    fn checked_insert_count(&self, start: u16, count: u16) -> u16 {
+        let in_range = (0..count).all(|i| self.glyphs.get(u32::from(start) + u32::from(i)).is_some());
+        if in_range {
+            count
+        } else {
+            0
+        }
+    }
 }
 
 impl driver_context_t<morx::InsertionEntryData> for InsertionCtx<'_> {
@@ -660,6 +670,9 @@ impl driver_context_t<morx::InsertionEntryData> for InsertionCtx<'_> {
             }
 
             let start = entry.extra.marked_insert_index;
+            // Like HarfBuzz: if the glyph list does not hold `count` glyphs, insert nothing
+            // (but still move past the marked position below).
+            let count = self.checked_insert_count(start, count);
             let before = flags & Self::MARKED_INSERT_BEFORE != 0;
 
             let end = buffer.out_len;
@@ -671,7 +684,7 @@ impl driver_context_t<morx::InsertionEntryData> for InsertionCtx<'_> {
 
             // TODO We ignore KashidaLike setting.
             for i in 0..count {
-                let i = u32::from(start + i);
+                let i = u32::from(start) + u32::from(i);
                 buffer.output_glyph(u32::from(self.glyphs.get(i)?.0));
             }
 
@@ -699,6 +712,7 @@ impl driver_context_t<morx::InsertionEntryData> for InsertionCtx<'_> {
             }
 
             let start = entry.extra.current_insert_index;
+            let count = self.checked_insert_count(start, count);
             let before = flags & Self::CURRENT_INSERT_BEFORE != 0;
             let end = buffer.out_len;
 
@@ -708,7 +722,7 @@ impl driver_context_t<morx::InsertionEntryData> for InsertionCtx<'_> {
 
             // TODO We ignore KashidaLike setting.
             for i in 0..count {
-                let i = u32::from(start + i);
+                let i = u32::from(start) + u32::from(i);
                 buffer.output_glyph(u32::from(self.glyphs.get(i)?.0));
             }
 
